@@ -162,6 +162,9 @@ pub fn build_mmtk<const V: usize>(case: &Case) -> &'static MMTK<ShadowVM<V>> {
     if let Some((_, v)) = case.opts.iter().find(|(k, _)| k == "__scan_delay") {
         gl.scan_delay_us.store(v.parse().unwrap_or(0), Ordering::Relaxed);
     }
+    if case.opts.iter().any(|(k, _)| k == "__vm_packets") && case.plan != "ConcurrentImmix" {
+        gl.vm_packets.store(true, Ordering::Relaxed);
+    }
     {
         let mut muts = gl.mutators.lock().unwrap();
         for _ in 0..MAX_MUTATORS {
@@ -572,6 +575,22 @@ impl<const V: usize> Exec<V> {
 
     fn after_possible_gc(&mut self) {
         self.check_events();
+        if let Some(d) = g().worker_ident_violation.lock().unwrap().take() {
+            self.violate("C16", "worker-respawned-with-different-identity", d);
+            return;
+        }
+        {
+            // no pause is in progress here (the driver is running): every packet the binding added during a
+            // pause must have been executed in that pause
+            let (a, r) = (g().vm_packets_added.load(Ordering::SeqCst), g().vm_packets_run.load(Ordering::SeqCst));
+            if a != r && self.verdict.ok {
+                self.violate("C15", "vm-packet-not-executed-in-its-gc", format!("the binding added {} work packets to later stages during pauses, {} were executed by the time the mutators resumed", a, r));
+                return;
+            }
+            if a > 0 {
+                self.verdict.counters.insert("vm_packets".to_string(), a);
+            }
+        }
         let r = g().resume_calls.load(Ordering::SeqCst);
         if r != self.last_resume {
             let n = r - self.last_resume;
@@ -1016,6 +1035,71 @@ impl<const V: usize> Exec<V> {
                 self.after_possible_gc();
                 self.pending_exhaustive = false;
             }
+            Op::RacingGc { m, k } => {
+                let m0 = self.pick_m(*m);
+                if self.is_nogc {
+                    return;
+                }
+                let others: Vec<usize> = (0..MAX_MUTATORS).filter(|i| self.bound[*i] && *i != m0).take(1 + (*k as usize % 3)).collect();
+                if others.is_empty() {
+                    return;
+                }
+                self.prepare_probes();
+                self.pending_exhaustive = false;
+                let mmtk = self.mmtk;
+                let handles: Vec<std::thread::JoinHandle<(bool, u64, u64)>> = others
+                    .iter()
+                    .map(|&mi| {
+                        std::thread::spawn(move || {
+                            super::vm::IS_GC_REQUEST_HELPER.with(|h| h.set(true));
+                            let c0 = g().resume_calls.load(Ordering::SeqCst);
+                            let ran = mmtk.handle_user_collection_request(mutator_tls(mi), true, false);
+                            let c1 = g().resume_calls.load(Ordering::SeqCst);
+                            (ran, c0, c1)
+                        })
+                    })
+                    .collect();
+                // let the helpers call in first: no pause can proceed before the driver thread parks, so each
+                // helper either blocks in block_for_gc or (wrongly) returns
+                let t0 = std::time::Instant::now();
+                loop {
+                    let done = handles.iter().filter(|h| h.is_finished()).count();
+                    if done + g().helpers_blocked.load(Ordering::SeqCst) >= handles.len() || t0.elapsed().as_secs() >= 5 {
+                        break;
+                    }
+                    std::thread::sleep(std::time::Duration::from_micros(100));
+                }
+                // the driver's own request parks the driver; the pending collection proceeds and wakes everybody
+                for round in 0..20 {
+                    let pauses_before = g().resume_calls.load(Ordering::SeqCst);
+                    let ran = self.mmtk.handle_user_collection_request(mutator_tls(m0), true, false);
+                    if !ran || g().resume_calls.load(Ordering::SeqCst) == pauses_before {
+                        self.violate("C11", "gc-requester-not-blocked-until-gc-ended", format!("mutator {}: handle_user_collection_request(force) returned {} and {} collections ended during the call, while {} other mutators were requesting a collection too", m0, ran, g().resume_calls.load(Ordering::SeqCst) - pauses_before, handles.len()));
+                        break;
+                    }
+                    cnt!(self, "gc_requested");
+                    let stop_pending = g().sync.lock().unwrap().stop_requested;
+                    if handles.iter().all(|h| h.is_finished()) && !stop_pending {
+                        break;
+                    }
+                    if round > 0 {
+                        std::thread::sleep(std::time::Duration::from_millis(1));
+                    }
+                }
+                if !self.verdict.ok {
+                    // leave the helper threads behind: the process exits with the verdict
+                    return;
+                }
+                let n = handles.len();
+                for (h, mi) in handles.into_iter().zip(others.iter()) {
+                    let (ran, c0, c1) = h.join().unwrap();
+                    if (!ran || c1 == c0) && self.verdict.ok {
+                        self.violate("C11", "gc-requester-not-blocked-until-gc-ended", format!("mutator {} (one of {} mutators requesting a forced collection at the same time): handle_user_collection_request returned {} after {} collections had ended since its call", mi, n + 1, ran, c1 - c0));
+                    }
+                }
+                cnt!(self, "racing_gc");
+                self.after_possible_gc();
+            }
             Op::Churn { m, kb, size } => {
                 let m = self.pick_m(*m);
                 let size = HEADER_BYTES + ((*size as usize) & !7).min(4096);
@@ -1153,8 +1237,14 @@ impl<const V: usize> Exec<V> {
                     self.objs.get_mut(&yid).unwrap().fields[0] = yid;
                     let yraw = self.raw(ya);
                     let sraw = self.raw(sa);
-                    let src_slice = ShadowSlice { obj: Some(oref(ya)), start: addr(yraw.slot_addr(0)), end: addr(yraw.slot_addr(1)) };
-                    let dst_slice = ShadowSlice { obj: Some(oref(sa)), start: addr(sraw.slot_addr(f)), end: addr(sraw.slot_addr(f + 1)) };
+                    // half of the copies use slices that do not name their holder object (like the default
+                    // `Range<Address>` slice type): the barrier must then decide from the slice addresses
+                    let with_obj = *extra & 1 == 0;
+                    if !with_obj {
+                        cnt!(self, "region_old_to_young_no_holder");
+                    }
+                    let src_slice = ShadowSlice { obj: with_obj.then(|| oref(ya)), start: addr(yraw.slot_addr(0)), end: addr(yraw.slot_addr(1)) };
+                    let dst_slice = ShadowSlice { obj: with_obj.then(|| oref(sa)), start: addr(sraw.slot_addr(f)), end: addr(sraw.slot_addr(f + 1)) };
                     let mutator = self.mutator(m);
                     match self.barrier {
                         BarrierSelector::NoBarrier => <ShadowSlice as mmtk::vm::slot::MemorySlice>::copy(&src_slice, &dst_slice),
@@ -1608,7 +1698,11 @@ impl<const V: usize> Exec<V> {
         let mut key_root = r;
         let mut built = 0;
         for i in 0..=k {
-            let vid = self.alloc_obj(m, 16, 1, KIND_PLAIN, if i % 3 == 2 { 6 } else { 0 }, 0, 0);
+            // every third value lives outside the default space (non-moving, large-object or immortal
+            // semantics in turn): such a value is reachable only through the table and is traced only by
+            // process_weak_refs / forward_weak_refs
+            let vsem = if (i + k) % 3 == 2 { [6u8, 2, 1][(i / 3 + k) % 3] } else { 0 };
+            let vid = self.alloc_obj(m, 16, 1, KIND_PLAIN, vsem, 0, 0);
             if vid == 0 {
                 break;
             }
